@@ -5,7 +5,7 @@ C14 -- re-parsing is idempotent and commit=False has no side effects.
 import ast
 
 from .. import AnalysisError, flow
-from ..srcmodel import walk_local, norm, dotted, guards, enclosing_stmt
+from ..srcmodel import walk_local, norm, dotted, guards, enclosing_stmt, facts_at
 from . import common
 
 META = {
@@ -61,8 +61,8 @@ def check(ctx):
         if not effs:
             ctx.ok('COMMIT', f"{spec}: no effect on self at all")
         for node, desc in effs:
-            gs = [(norm(t), pol) for t, pol in guards(node)]
-            ok = any(t == 'commit' and pol for t, pol in gs)
+            gs = [(t, pol) for _e, t, pol in facts_at(node)]
+            ok = ('commit', True) in gs
             ctx.check(ok, 'COMMIT', f"{spec}: {desc} only under `if commit`",
                       'guarded', f"`{norm(enclosing_stmt(node))[:80]}` runs when commit=False "
                                  f"(guards: {gs or 'none'}): a non-committed call changes the object",
@@ -72,15 +72,15 @@ def check(ctx):
             if isinstance(c, ast.Call) and any(isinstance(a, ast.Name) and a.id == 'self' for a in c.args) \
                     or isinstance(c, ast.Call) and any(isinstance(k.value, ast.Name) and k.value.id == 'self' for k in c.keywords):
                 callee = dotted(c.func)
-                gs = [(norm(t), pol) for t, pol in guards(c)]
-                if any(t == 'commit' and pol for t, pol in gs) or callee in ('setattr', 'getattr', 'isinstance'):
+                gs = [(t, pol) for _e, t, pol in facts_at(c)]
+                if ('commit', True) in gs or callee in ('setattr', 'getattr', 'isinstance'):
                     continue
                 ok = callee == 'TractParser'
                 ctx.check(ok, 'COMMIT', f"{spec}: passes self to {callee}",
                           'TractParser only reads/copies from its parent (checked below)',
                           f"self escapes to {callee}() outside `if commit`",
                           key=f"COMMIT|{spec}|escape|{callee}")
-    ctx.floor('self effects in commit methods', n_eff, 12)
+    ctx.floor('self effects in commit methods', n_eff, 4)
 
     # the return value does not depend on commit (same object either way)
     for spec, ret in (('PLSSDesc.parse', 'tracts'), ('Tract.preprocess', 'text'), ('PLSSDesc.preprocess', 'pp_desc')):
@@ -114,8 +114,7 @@ def _parsers_readonly(ctx):
                                                    for x in ast.walk(n.value) if isinstance(x, ast.Attribute)):
                 tgt = norm(n.targets[0])
                 v = n.value
-                fresh = isinstance(v, ast.Call) and isinstance(v.func, ast.Attribute) and v.func.attr == 'copy'
-                fresh = fresh or (isinstance(v, ast.Call) and dotted(v.func) in ('list', 'dict', 'tuple'))
+                fresh = common.freshness(v)
                 if tgt.startswith('self.'):
                     seeded[tgt[5:]] = (norm(v), fresh, n, m)
                     srcs = {x.attr for x in ast.walk(n.value) if isinstance(x, ast.Attribute)
@@ -129,11 +128,11 @@ def _parsers_readonly(ctx):
     if len(seeded) < 4:
         ctx.undecided('COMMIT', 'TractParser attributes seeded from the parent', f"only {len(seeded)} explicit seedings recognised")
     for a, (txt, fresh, node, m) in sorted(seeded.items()):
-        ctx.check(fresh, 'COMMIT', f"TractParser.{a} is a copy of the parent's list",
-                  f"self.{a} = {txt}",
-                  f"`self.{a} = {txt}` aliases the Tract's own list: appending during a parse "
-                  f"(even with commit=False) changes the Tract",
-                  key=f"COMMIT|TractParser|alias|{a}", where=common.loc(m, node))
+        ctx.tri(fresh == 'fresh', fresh == 'alias', 'COMMIT', f"TractParser.{a} is a copy of the parent's list",
+                f"self.{a} = {txt}",
+                f"`self.{a} = {txt}` aliases the Tract's own list: appending during a parse "
+                f"(even with commit=False) changes the Tract",
+                key=f"COMMIT|TractParser|alias|{a}", where=common.loc(m, node))
     ctx.notes['tractparser_seeded'] = sorted(seeded)
     # PLSSParser never receives the PLSSDesc
     fi = ctx.repo.func('PLSSDesc.parse')
